@@ -43,6 +43,9 @@ func verifAnyDict() (*DictionaryField, *cfg.Dictionary, *update.SchemaUpdateRequ
 		}
 	}
 	df.resetPending = rt.Bool("resetPending")
+	// the cardinality remembered from the previous batch is state too (any value: after a
+	// dictionary reset the next batch's cardinality is smaller than the remembered one)
+	df.cardinality = rt.Uint64("prevCard")
 	df.cumulativeTotal = rt.Uint64("cumTotal")
 	rt.Assume(df.cumulativeTotal <= 1<<62)
 	df.prevCumulativeTotal = rt.Uint64("prevCumTotal")
